@@ -208,6 +208,19 @@ class _Exits:
         return self.simple(st, sig)
 
 
+def _exception_locals(fn, exc_names):
+    """local names that are only ever assigned a freshly constructed exception"""
+    vals = {}
+    for n in ast.walk(fn.node):
+        if isinstance(n, ast.Assign) and len(n.targets) == 1 and isinstance(n.targets[0], ast.Name):
+            v = n.value
+            good = isinstance(v, ast.Call) and (
+                (isinstance(v.func, ast.Name) and v.func.id in exc_names) or
+                (isinstance(v.func, ast.Attribute) and v.func.attr in exc_names))
+            vals.setdefault(n.targets[0].id, []).append(good)
+    return {k for k, v in vals.items() if v and all(v)}
+
+
 def feeder_exits(fn, exc_names):
     """{exit kind: all signalled?} for a feeder function"""
     exception_vars = set()
@@ -217,6 +230,7 @@ def feeder_exits(fn, exc_names):
             exception_vars.add(n.args[0].id)
         if isinstance(n, ast.ExceptHandler) and n.name:
             exception_vars.add(n.name)
+    exception_vars |= _exception_locals(fn, exc_names)
     ex = _Exits(exc_names, exception_vars)
     res = ex.block(fn.node.body, (False, None))
     out = {}
@@ -268,9 +282,11 @@ def _owned_task(repo, cls, fn):
                         n.value.id == 'self':
                     refs += 1
                 if isinstance(n, ast.Assign) and isinstance(n.value, ast.Call) and \
-                        'create_task' in ast.unparse(n.value.func) and name in ast.unparse(n.value) and \
-                        isinstance(n.targets[0], ast.Attribute):
-                    attr = n.targets[0].attr
+                        'create_task' in ast.unparse(n.value.func) and isinstance(n.targets[0], ast.Attribute):
+                    from ..astutil import resolve_temp
+                    what = ' '.join(ast.unparse(resolve_temp(m.node, a)) for a in n.value.args)
+                    if name in what:
+                        attr = n.targets[0].attr
     if attr is None or refs != 1:
         return False
     # referenced from outside the class (a handler awaiting it) -> not owned
@@ -322,8 +338,8 @@ def rule_connection_end_signalled(ctx, rule='C11.k'):
                 enders = [m for m in (owner.methods.values() if owner is not None else ())
                           if m.node.name in ('disconnect', 'connection_lost', 'websocket_disconnect', 'on_close')]
                 ok = False
-                ex = _Exits(exc_names, set())
                 for m in enders:
+                    ex = _Exits(exc_names, _exception_locals(m, exc_names))
                     if any(ex.is_signal(st) for st in m.node.body):
                         ok = True
                 rep.add(rule, '%s / end of the connection reaches the receiver' % fn.short, fn, ok,
@@ -406,6 +422,9 @@ def _bytes_evidence(fn, loop_for, expr):
         for st in body[:body.index(loop_for)]:
             if isinstance(st, ast.If) and st.body and isinstance(st.body[-1], (ast.Continue, ast.Return)):
                 t = st.test
+                if isinstance(t, ast.UnaryOp) and isinstance(t.op, ast.Not) and isinstance(t.operand, ast.Name) and \
+                        t.operand.id in names and 'bytes' in t.operand.id:
+                    return 'everything but a non-empty %s is skipped first' % t.operand.id
                 if isinstance(t, ast.UnaryOp) and isinstance(t.op, ast.Not) and isinstance(t.operand, ast.Call) and \
                         isinstance(t.operand.func, ast.Name) and t.operand.func.id == 'isinstance' and \
                         {y.id for y in ast.walk(t.operand.args[0]) if isinstance(y, ast.Name)} & names and \
